@@ -187,6 +187,7 @@ func RunLive(s *kernel.Sim, o LiveOpts) *World {
 		w.Tracef("initial cache: %s", shortDoc(initial))
 	}
 	w.Cache = w.MemCache(initial)
+	w.UseRealClient = t.Bool(1, 4)
 	w.Svc.MaxHang = 2 * time.Minute // a hung poll request ends like a transport timeout
 	l.cfg = w.BaseConfig(l.declared)
 	l.cfg.Cache = w.Cache
